@@ -353,7 +353,13 @@ func runC15TwoCoordinators(c *Ctx, coord *Coord, stubs map[int]*stubRM) {
 			}
 			return false
 		})
-		c.Out.Case(cid, "C15", "skip", "skip")
+		obs := "answered-on=asker"
+		if answeredOn == 0 {
+			obs = "answered-on=none"
+		} else if answeredOn != asked.id {
+			obs = "answered-on=other"
+		}
+		c.Out.Case(cid, "C15", fmt.Sprintf("asked %d %s", asked.id, xid), obs)
 		switch {
 		case crash != "":
 			c.Out.Oracle(cid, false, "crash", crash)
